@@ -670,6 +670,78 @@ func c02Whitespace(push bool) *Scenario {
 	}
 }
 
+// c02EndedContext: a server whose base context (ServerOptions.NewContext) has already ended, or ends
+// half-way: requests are refused or cancelled, but the server keeps answering every record.
+func c02EndedContext(push bool) *Scenario {
+	return &Scenario{
+		Name:   fmt.Sprintf("base context already ended / ending half-way: class representatives and batches, a probe call after each push=%v", push),
+		Params: map[string]any{"push": push, "records": len(c02Reps())},
+		Seq: func(r *SeqRun) {
+			reps := c02Reps()
+			var recs []string
+			for i, a := range reps {
+				recs = append(recs, a, "["+a+","+reps[(i+3)%len(reps)]+"]")
+			}
+			for _, cancelAt := range []int{0, len(recs) / 2} {
+				answered := make([]int, len(recs))
+				x := vs.Run(nil, func() {
+					lib, peer, _ := NewPipe(PipeOpts{Name: "srv", CloseUnblocksRecv: true, Quiet: true})
+					hd := func(ctx context.Context, req *jrpc2.Request) (any, error) { return "R", nil }
+					asg := assignerFunc(func(ctx context.Context, m string) jrpc2.Handler {
+						if c02Known[m] || m == "probe" {
+							return hd
+						}
+						return nil
+					})
+					base, cancel := context.WithCancel(context.Background())
+					defer cancel()
+					srv := jrpc2.NewServer(asg, &jrpc2.ServerOptions{Concurrency: 1, AllowPush: push, NewContext: func() context.Context { return base }})
+					srv.Start(lib)
+					for i, rec := range recs {
+						if i == cancelAt {
+							cancel()
+						}
+						peer.Send([]byte(rec))
+						vs.AwaitQuiescence()
+						for {
+							if _, ok := peer.TryRecv(); !ok {
+								break
+							}
+						}
+						peer.Send([]byte(fmt.Sprintf(`{"jsonrpc":"2.0","id":"probe%d","method":"probe"}`, i)))
+						vs.AwaitQuiescence()
+						for {
+							out, ok := peer.TryRecv()
+							if !ok {
+								break
+							}
+							if strings.Contains(string(out), fmt.Sprintf(`"id":"probe%d"`, i)) {
+								answered[i]++
+							}
+						}
+					}
+					peer.Close()
+					srv.WaitStatus()
+				})
+				r.Calls(x.Steps)
+				if x.Outcome != "ok" {
+					r.Fail("G1", fmt.Sprintf("base context ended before record %d", cancelAt), "server run ended with "+x.Outcome+" "+firstLine(x.Detail)+" "+panicSite(x.Stack), "")
+					continue
+				}
+				for i, rec := range recs {
+					r.Case(fmt.Sprintf("ended-ctx/%d", answered[i]), true)
+					Hit("C02.R5")
+					if answered[i] != 1 {
+						r.Fail("C02.R5", rec, fmt.Sprintf("after this record (base context ended before record %d) the probe call was answered %d times: the server no longer serves", cancelAt, answered[i]), "")
+						break
+					}
+				}
+			}
+			r.Sample(map[string]any{"record": reps[3], "then": "probe call"})
+		},
+	}
+}
+
 func c02Scenarios(tier string) []*Scenario {
 	var out []*Scenario
 	q := tier == "quick"
@@ -687,7 +759,7 @@ func c02Scenarios(tier string) []*Scenario {
 			}
 			out = append(out, c02Fields(ver, push, orders))
 		}
-		out = append(out, c02Batches(push), c02Exotic(push), c02Whitespace(push))
+		out = append(out, c02Batches(push), c02Exotic(push), c02Whitespace(push), c02EndedContext(push))
 		ml := 4
 		if !q {
 			ml = 5
